@@ -279,9 +279,14 @@ class Run:
         was_enabled = self.enabled
         getattr(self, 'op_' + name)(*op[1:])
         self.followup_process = False
+        self._revive = []
         for post in self._post:
             self.apply_post(post)
         self._post = []
+        for e in self._revive:
+            if not self.owns(e) and not self.is_marked(e) and self.enabled and not self.nesting:
+                self.flags['revive_free_id'] += 1
+                self._do_add(e, self.new_comp(len(self.comps)))
         if 'lifecycle' in self.checks and name != 'toggle':
             # a degraded op may have enabled dispatching first: that part of the log was judged by op_toggle
             start = self._toggled_at if self._toggled_at is not None else mark
@@ -696,9 +701,8 @@ class Run:
                 # given a component again right away (a mark left behind would hide the new entity; the next
                 # process() shows the rest)
                 self.flags['own_entity_marked_then_gone'] += 1
-                if not self.is_marked(e) and self.enabled and not self.nesting and 'queries' in self.checks:
-                    self.flags['revive_free_id'] += 1
-                    self._do_add(e, self.new_comp(len(self.comps)))
+                if 'queries' in self.checks:
+                    self._revive.append(e)          # done once every post of this step has been applied
                 elif 'deletion' in self.checks and not self.nesting:
                     self.followup_process = True
             return
